@@ -18,13 +18,67 @@ from .sem import nt
 R_NORM = 'tuple([_convert_None_to_Interface(r) for r in required])'
 
 
+class _NormReq(ast.NodeTransformer):
+    """R = the normalised `required` (each member through
+    _convert_None_to_Interface), however it is spelled; key = R + (provided,)"""
+
+    @staticmethod
+    def _is_conv(e, var):
+        return isinstance(e, ast.Call) and dotted(e.func) == '_convert_None_to_Interface' \
+            and len(e.args) == 1 and isinstance(e.args[0], ast.Name) and e.args[0].id == var
+
+    def _conv_all(self, e):
+        if isinstance(e, (ast.ListComp, ast.GeneratorExp)) and len(e.generators) == 1:
+            g = e.generators[0]
+            return isinstance(g.target, ast.Name) and not g.ifs and \
+                isinstance(g.iter, ast.Name) and g.iter.id == 'required' and \
+                self._is_conv(e.elt, g.target.id)
+        if isinstance(e, ast.Call) and dotted(e.func) == 'map' and len(e.args) == 2:
+            return dotted(e.args[0]) == '_convert_None_to_Interface' and \
+                isinstance(e.args[1], ast.Name) and e.args[1].id == 'required'
+        return False
+
+    def visit_Call(self, node):
+        if dotted(node.func) in ('tuple', 'list') and len(node.args) == 1 and \
+                self._conv_all(node.args[0]):
+            return ast.Name(id='R', ctx=ast.Load())
+        self.generic_visit(node)
+        return node
+
+    def visit_ListComp(self, node):
+        if self._conv_all(node):
+            return ast.Name(id='R', ctx=ast.Load())
+        self.generic_visit(node)
+        return node
+
+    def _seq(self, node):
+        self.generic_visit(node)
+        # (*A, b) -> A + (b,)
+        if len(node.elts) == 2 and isinstance(node.elts[0], ast.Starred) and \
+                not isinstance(node.elts[1], ast.Starred):
+            return ast.BinOp(left=node.elts[0].value, op=ast.Add(),
+                             right=ast.Tuple(elts=[node.elts[1]], ctx=ast.Load()))
+        return node
+
+    visit_Tuple = visit_List = _seq
+
+    def visit_BinOp(self, node):
+        self.generic_visit(node)
+        # A + [b]  ->  A + (b,)   (a key built as a list)
+        if isinstance(node.op, ast.Add) and isinstance(node.right, ast.List) and \
+                len(node.right.elts) == 1:
+            node.right = ast.Tuple(elts=node.right.elts, ctx=ast.Load())
+        return node
+
+
 def norm_required(text):
     """normalise the spelling of the normalised `required` tuple and of
     len(key) - 1 == len(required)"""
-    for v in ('r', 'x', 'spec', 'req', 'i'):
-        text = text.replace('tuple([_convert_None_to_Interface(%s) for %s in required])' % (v, v), 'R')
-        text = text.replace('tuple((_convert_None_to_Interface(%s) for %s in required))' % (v, v), 'R')
-    text = text.replace('tuple(map(_convert_None_to_Interface, required))', 'R')
+    try:
+        e = ast.parse(text, mode='eval').body
+        text = norm_src(_NormReq().visit(e))
+    except SyntaxError:
+        pass
     text = text.replace('len(R + (provided,)) - 1', 'len(R)')
     return text
 
@@ -64,238 +118,348 @@ def count_test(cfg, value_patterns, const):
 
 
 def extendor_transitions(rep, rule, mod, fname, kind):
+    """over path summaries: the per-provided count is stored as old + 1 and
+    add_extendor runs exactly when it becomes 1; on removal the new count is
+    old - (what was removed), zero deletes the count and runs remove_extendor,
+    anything else is stored back"""
     f = find_def(mod, 'BaseAdapterRegistry.' + fname)
     site = 'BaseAdapterRegistry.' + fname
-    cfg = cfg_of(f)
+    ss = normal(summaries(f))
+    CNT = 'self._provided[provided]'
+    probs = []
     if kind == 'add':
         pats = ['self._provided.get(provided, 0) + 1', '1 + self._provided.get(provided, 0)']
-        ctext, cnode = count_test(cfg, pats, 1)
-        calls = nodes_matching(cfg, 'self._v_lookup.add_extendor(provided)')
-        stores = [n for n in cfg.nodes if isinstance(n.ast, ast.Assign) and
-                  match('self._provided[provided]', n.ast.targets[0]) is not None]
-        okv = len(stores) == 1 and any(
-            match(p, resolve(cfg, stores[0], stores[0].ast.value)) is not None for p in pats)
-        ok = ctext is not None and len(calls) == 1 and okv and \
-            guarded(cfg, calls[0], ctext, True)
-        # ... and whenever the count becomes 1 the call happens: the F side
-        # of the guard is the only way around the call
-        if ok:
-            t = [(n, pol) for n, pol in test_nodes(cfg, ctext)]
-            for n, pol in t:
-                lab = 'T' if pol else 'F'
-                nxt = [m for m, l in n.succ if l == lab]
-                ok = ok and all(cfg.must_pass_after(n, lambda x: x is calls[0])
-                                or m is calls[0] or calls[0].id in cfg.reach(m, include_start=True)
-                                for m in nxt)
-        rep.check(rule, site, ok,
-                  'count stored as get(provided, 0) + 1 (%s); add_extendor(provided) '
-                  'exactly when it becomes 1 (test `%s`, calls %d)'
-                  % (okv, ctext, len(calls)), construct='add_extendor', node=f)
+        seen = set()
+        for ps in ss:
+            st = [e for e in ps.stores() if nt(e.r) == CNT]
+            adds = [e for e in ps.events if e.kind == 'call' and
+                    nt(e.r) == 'self._v_lookup.add_extendor(provided)']
+            if not st:
+                if adds:
+                    probs.append('add_extendor without counting')
+                continue
+            if len(st) != 1 or nt(st[0].val) not in pats:
+                probs.append('count stored as %s' % [nt(e.val)[:50] for e in st])
+                continue
+            N = nt(st[0].val)
+            one = ps.facts.get('%s == 1' % N)
+            if one is None:
+                probs.append('the new count is not compared with 1')
+                continue
+            seen.add(one)
+            if (len(adds) == 1) != one or len(adds) > 1:
+                probs.append('count becomes %s: add_extendor called %d times'
+                             % ('1' if one else 'more than 1', len(adds)))
+        if seen != {True, False}:
+            probs.append('count == 1 outcomes seen: %s' % sorted(seen))
+        rep.check(rule, site, not probs,
+                  'count stored as get(provided, 0) + 1; add_extendor(provided) '
+                  'exactly when it becomes 1' if not probs else
+                  {'problems': sorted(set(probs))[:3]}, construct='add_extendor', node=f)
         return
     if fname == 'unregister':
         pats = ['self._provided[provided] - 1']
     else:
-        pats = ['self._provided[provided] + len($n) - $o', 'self._provided[provided] - ($o - len($n))',
-                'self._provided[provided] - $o + len($n)', 'self._provided[provided] + (len($n) - $o)']
-    ctext, cnode = count_test(cfg, pats, 0)
-    calls = nodes_matching(cfg, 'self._v_lookup.remove_extendor(provided)')
-    dels = nodes_matching(cfg, 'del self._provided[provided]', 'exec')
-    stores = [n for n in cfg.nodes if isinstance(n.ast, ast.Assign) and
-              match('self._provided[provided]', n.ast.targets[0]) is not None]
-    ok = ctext is not None and len(calls) == 1 and len(dels) == 1 and len(stores) == 1
-    detail = 'count test %s, remove_extendor %d, del %d, store %d' % (
-        ctext, len(calls), len(dels), len(stores))
-    if ok:
-        okv = any(match(p, resolve(cfg, stores[0], stores[0].ast.value)) is not None
-                  for p in pats)
-        g1 = guarded(cfg, calls[0], ctext, True) and guarded(cfg, dels[0], ctext, True)
-        g2 = guarded(cfg, stores[0], ctext, False)
-        if fname == 'unsubscribe':
-            # len_old is the length of the old leaf taken before the removal
-            lo = [n for n in cfg.nodes if isinstance(n.ast, ast.Assign) and
-                  isinstance(n.ast.targets[0], ast.Name) and
-                  match('len($o)', n.ast.value) is not None]
-        ok = okv and g1 and g2
-        detail = ('count = %s (%s); zero -> delete the count and remove_extendor '
-                  '(%s); otherwise store it (%s)' % (pats[0], okv, g1, g2))
-    rep.check(rule, site, ok, detail, construct='remove_extendor', node=f)
+        pats = ['self._provided[provided] + len($n) - $o',
+                'self._provided[provided] - ($o - len($n))',
+                'self._provided[provided] - $o + len($n)',
+                'self._provided[provided] + (len($n) - $o)']
+
+    def is_count(e):
+        return any(match(p_, e) is not None for p_ in pats)
+    seen = set()
+    for ps in ss:
+        st = [e for e in ps.stores() if nt(e.r) == CNT]
+        dl = [e for e in ps.dels() if nt(e.r) == CNT]
+        rm = [e for e in ps.events if e.kind == 'call' and
+              nt(e.r) == 'self._v_lookup.remove_extendor(provided)']
+        if not st and not dl:
+            if rm:
+                probs.append('remove_extendor without touching the count')
+            continue
+        zero = None
+        for c, t, p in ps.order:
+            try:
+                e = ast.parse(c, mode='eval').body
+            except SyntaxError:
+                continue
+            if isinstance(e, ast.Compare) and isinstance(e.ops[0], ast.Eq) and \
+                    isinstance(e.comparators[0], ast.Constant) and \
+                    e.comparators[0].value == 0 and is_count(e.left):
+                zero = t
+            elif is_count(e):
+                zero = not t          # truthiness of the new count
+        if zero is None:
+            probs.append('the new count is not tested against zero (facts %s)'
+                         % [c[:50] for c, t, p in ps.order][-2:])
+            continue
+        seen.add(zero)
+        if zero:
+            if len(dl) != 1 or len(rm) != 1 or st:
+                probs.append('count reaches zero: del %d, remove_extendor %d, store %d'
+                             % (len(dl), len(rm), len(st)))
+        else:
+            if dl or rm or len(st) != 1 or not is_count(st[0].val):
+                probs.append('count stays positive: del %d, remove_extendor %d, '
+                             'stores %s' % (len(dl), len(rm),
+                                            [nt(e.val)[:50] for e in st]))
+    if seen != {True, False}:
+        probs.append('zero / non-zero outcomes seen: %s' % sorted(seen))
+    rep.check(rule, site, not probs,
+              'count = %s; zero -> delete the count and remove_extendor; otherwise '
+              'store it' % pats[0] if not probs else {'problems': sorted(set(probs))[:3]},
+              construct='remove_extendor', node=f)
+
+
+def nfacts(ps):
+    """the path's facts with their text normalised like nt() does for
+    events (so both can be compared)"""
+    out = []
+    for c, t, p in ps.order:
+        if c.startswith(('ITER(', 'EXCEPT(')):
+            out.append((c, t, p))
+            continue
+        try:
+            out.append((nt(ast.parse(c, mode='eval').body), t, p))
+        except SyntaxError:
+            out.append((c, t, p))
+    return out
+
+
+def nfact(ps, text):
+    v = None
+    for c, t, p in nfacts(ps):
+        if c == text:
+            v = t
+    return v
+
+
+def _leaf_get(ps, key="''"):
+    """resolved text of the leaf probe <container>.get('') on the path"""
+    for e in ps.events:
+        if e.kind == 'call' and isinstance(e.r.func, ast.Attribute) and \
+                e.r.func.attr == 'get' and len(e.r.args) == 1 and nt(e.r.args[0]) == key:
+            return nt(e.r), nt(e.r.func.value)
+    return None, None
 
 
 def unsubscribe_new(rep, rule, mod):
+    """over path summaries: the remainder is () when no value was given, else
+    _removeValueFromLeaf(<leaf under ''>, value); when nothing was removed the
+    method returns without any write; a non-empty remainder is stored back
+    under '', an empty one deletes the entry; only leaf / emptied ancestors /
+    the provided count are written"""
     f = find_def(mod, 'BaseAdapterRegistry.unsubscribe')
     site = 'BaseAdapterRegistry.unsubscribe'
-    cfg = cfg_of(f)
-    defs = [n for n in cfg.nodes if isinstance(n.ast, ast.Assign) and
-            any(isinstance(t, ast.Name) and t.id == 'new' for t in n.ast.targets)]
-    ok = len(defs) == 2
-    detail = 'definitions of new: %s' % [norm_src(n.ast.value) for n in defs]
-    if ok:
-        empty = [n for n in defs if match('()', n.ast.value) is not None]
-        rem = [n for n in defs if match('self._removeValueFromLeaf($old, value)',
-                                        n.ast.value) is not None]
-        ok = len(empty) == 1 and len(rem) == 1 and \
-            guarded(cfg, empty[0], 'value is None', True) and \
-            guarded(cfg, rem[0], 'value is None', False)
-        if ok:
-            old = match('self._removeValueFromLeaf($old, value)', rem[0].ast.value)['old']
-            oldv = resolve(cfg, rem[0], old)
-            ok = match("$c.get('')", oldv) is not None
-            detail = ("value None -> (); else _removeValueFromLeaf(<leaf stored "
-                      "under ''>, value): old = %s" % norm_src(oldv))
-    rep.check(rule, site, ok, detail, construct='new', node=f)
-    # nothing written before the "nothing removed" return
-    writes, D = shared.content_writes(f, ('_subscribers', '_provided'))
-    wnodes = [cfg.node_of(w) for w, k, c, v in writes]
-    tn = test_nodes(cfg, 'len(new) == len_old') or test_nodes(cfg, 'len(new) == len(old)')
-    if not tn:
-        # resolved spelling
-        for n in cfg.nodes:
-            if n.kind == 'test' and n.ast is not None:
-                c, pol = canon(resolved_test(cfg, n, depth=2), True)
-                if c.startswith('len(new) == len('):
-                    tn = [(n, pol)]
-    ok = len(tn) == 1
-    if ok:
-        t, pol = tn[0]
-        lab = 'T' if pol else 'F'
-        same_len = [m for m, l in t.succ if l == lab]
-        # equal lengths: returns without reaching any write
-        okr = bool(same_len) and all(
-            not any(w.id in cfg.reach(m, include_start=True) for w in wnodes)
-            for m in same_len)
-        before = cfg.reach(cfg.entry, include_start=True, avoid=lambda n: n is t)
-        okb = not any(w.id in before for w in wnodes)
-        ok = okr and okb
-    rep.check(rule, site, ok,
-              'returns without any storage write when nothing was removed '
-              '(len(new) == len_old), and nothing is written before that test',
-              construct='early-return', node=f)
-    # the leaf is stored when non-empty, deleted when empty
-    st = nodes_matching(cfg, "$c[''] = new", 'exec')
-    dl = nodes_matching(cfg, "del $c['']", 'exec')
-    ok = len(st) == 1 and len(dl) == 1 and guarded(cfg, st[0], 'new', True) and \
-        guarded(cfg, dl[0], 'new', False)
-    rep.check(rule, site, ok,
-              "a non-empty remainder is stored back under '', an empty one deletes "
-              "the entry (%d/%d)" % (len(st), len(dl)), construct='leaf-write', node=f)
-    kinds = []
-    okw = True
-    for w, kind, cont, val in writes:
-        stt = shared.stmt_of(w)
-        if match("$c[''] = new", stt, 'exec') is not None or \
-                match("del $c['']", stt, 'exec') is not None:
-            kinds.append('leaf')
-        elif match('del $c[$k]', stt, 'exec') is not None:
-            kinds.append('prune')
-        elif match('del self._provided[provided]', stt, 'exec') is not None or \
-                match('self._provided[provided] = $n', stt, 'exec') is not None:
-            kinds.append('count')
+    p_new, p_early, p_leaf, p_w = [], [], [], []
+    kinds = set()
+    leafk = set()
+    for ps in normal(summaries(f)):
+        old, cont = _leaf_get(ps)
+        if old is None:
+            if ps.stores() or ps.dels():
+                p_w.append('writes without reading the leaf')
+            continue
+        rm = [e for e in ps.events if e.kind == 'call' and
+              nt(e.r.func) == 'self._removeValueFromLeaf']
+        vn = ps.facts.get('value is None')
+        writes = [e for e in ps.events if e.kind in ('store', 'del', 'aug')]
+        if nfact(ps, old) is False or vn is None:
+            # nothing stored under '' at all: belt-and-suspenders return
+            if writes and vn is None:
+                p_early.append('writes although no subscriber is stored')
+            if vn is None:
+                continue
+        if vn:
+            kinds.add('all')
+            NEW = '()'
+            if rm:
+                p_new.append('value None but _removeValueFromLeaf is called')
         else:
-            okw = False
-            kinds.append('OTHER:' + norm_src(stt).split('\n')[0][:50])
-    rep.check(rule, site, okw, 'storage writes: %s' % sorted(set(kinds)),
-              construct='writes', node=f)
+            kinds.add('one')
+            if len(rm) != 1 or [nt(a) for a in rm[0].r.args] != [old, 'value']:
+                p_new.append('remainder computed as %s (required '
+                             '_removeValueFromLeaf(<leaf>, value))' %
+                             [nt(e.r)[-60:] for e in rm])
+                continue
+            NEW = nt(rm[0].r)
+        same = None
+        for c, t, p in nfacts(ps):
+            if c in ('len(%s) == len(%s)' % (NEW, old), 'len(%s) == len(%s)' % (old, NEW)):
+                same = t
+        if same is None and not vn:
+            p_early.append('the remainder is not compared in length with the old leaf')
+            continue
+        if same:
+            if writes:
+                p_early.append('writes although nothing was removed')
+            continue
+        st = [e for e in ps.stores() if nt(e.r) == "%s['']" % cont]
+        dl = [e for e in ps.dels() if nt(e.r) == "%s['']" % cont]
+        nonempty = nfact(ps, NEW)
+        if NEW == '()':
+            nonempty = False if nonempty is None else nonempty
+        if nonempty is None:
+            p_leaf.append('remainder not tested for emptiness')
+        elif nonempty:
+            leafk.add('store')
+            if [nt(e.val) for e in st] != [NEW] or dl:
+                p_leaf.append('a non-empty remainder is not stored back')
+        else:
+            leafk.add('delete')
+            if len(dl) != 1 or st:
+                p_leaf.append('an empty remainder does not delete the entry')
+        for e in writes:
+            t = nt(e.r)
+            if t == "%s['']" % cont or t.startswith('self._provided[') or \
+                    (e.kind == 'del' and isinstance(e.r, ast.Subscript)):
+                continue
+            p_w.append('writes `%s`' % repr(e)[:60])
+    if kinds != {'all', 'one'}:
+        p_new.append('cases seen: %s' % sorted(kinds))
+    if not {'delete'} <= leafk:
+        p_leaf.append('leaf outcomes seen: %s' % sorted(leafk))
+    rep.check(rule, site, not p_new,
+              "value None -> (); else _removeValueFromLeaf(<leaf stored under ''>, value)"
+              if not p_new else {'problems': sorted(set(p_new))[:3]}, construct='new', node=f)
+    rep.check(rule, site, not p_early,
+              'returns without any storage write when nothing was removed '
+              '(len(new) == len(old leaf))' if not p_early else
+              {'problems': sorted(set(p_early))[:3]}, construct='early-return', node=f)
+    rep.check(rule, site, not p_leaf,
+              "a non-empty remainder is stored back under '', an empty one deletes "
+              "the entry" if not p_leaf else {'problems': sorted(set(p_leaf))[:3]},
+              construct='leaf-write', node=f)
+    rep.check(rule, site, not p_w, 'storage writes: leaf, emptied ancestors, count'
+              if not p_w else {'problems': sorted(set(p_w))[:3]}, construct='writes', node=f)
 
 
 def value_filter(rep, rule, mod):
-    """unregister removes only when the stored value IS the given one (or no
-    value was given) and something is stored."""
+    """unregister removes only when something is stored and (no value was
+    given or the stored value IS the given one); over path summaries"""
     f = find_def(mod, 'BaseAdapterRegistry.unregister')
     site = 'BaseAdapterRegistry.unregister'
-    cfg = cfg_of(f)
-    dl = nodes_matching(cfg, 'del $c[name]', 'exec')
-    ok = len(dl) == 1
-    detail = 'leaf deletions: %d' % len(dl)
-    if ok:
-        d = dl[0]
-        cont = d.ast.targets[0].value
-        old = '%s.get(name)' % norm_src(resolve(cfg, d, cont)) if False else None
-        # the stored value as probed: <container>.get(name), possibly via a local
-        g_notnone = False
-        g_ident = False
-        for cand in ('old', '%s.get(name)' % norm_src(cont)):
-            if guarded(cfg, d, '%s is None' % cand, False):
-                g_notnone = True
-            alts = [('value is None', True)]
-            for a, b in ((cand, 'value'), ('value', cand)):
-                c, pol = canon(ast.parse('%s is %s' % (a, b), mode='eval').body, True)
-                alts.append((c, True))
-            if guarded_any(cfg, d, alts):
-                g_ident = True
-        # no equality in the filter
-        eqs = [n for n in cfg.nodes if n.kind == 'test' and n.ast is not None and
-               isinstance(n.ast, ast.Compare) and isinstance(n.ast.ops[0], (ast.Eq, ast.NotEq))
-               and 'value' in norm_src(n.ast)]
-        ok = g_notnone and g_ident and not eqs
-        detail = ('the leaf is deleted only if something is stored (%s) and (no '
-                  'value was given or the stored value IS the given one) (%s); '
-                  'equality tests on value: %s' % (g_notnone, g_ident,
-                                                    [norm_src(n.ast) for n in eqs]))
-    rep.check(rule, site, ok, detail, construct='value-filter', node=f)
+    probs = []
+    kinds = set()
+    for ps in normal(summaries(f)):
+        old = None
+        for key in ('name', '_normalize_name(name)'):
+            o, cont = _leaf_get(ps, key)
+            if o is not None:
+                old, okey = o, key
+        dl = [e for e in ps.dels() if isinstance(e.r, ast.Subscript)
+              and nt(e.r.slice) in ('name', '_normalize_name(name)')]
+        if old is None:
+            if dl:
+                probs.append('deletes without probing the leaf')
+            continue
+        stored = nfact(ps, '%s is None' % old)
+        vn = ps.facts.get('value is None')
+        ident = None
+        for c, t, p in nfacts(ps):
+            if c in ('%s is value' % old, 'value is %s' % old):
+                ident = t
+            try:
+                e = ast.parse(c, mode='eval').body
+            except SyntaxError:
+                continue
+            if isinstance(e, ast.Compare) and isinstance(e.ops[0], ast.Eq) and \
+                    'value' in (nt(e.left), nt(e.comparators[0])) and old in c:
+                probs.append('the stored value is compared with the given one by '
+                             'equality (`%s`)' % c[:70])
+            if c == old:
+                probs.append('the stored value is tested for truth, not against None '
+                             '(a falsy component can never be removed)')
+        if stored is None and not dl:
+            continue
+        want = (stored is False) and (vn is True or ident is True)
+        kinds.add(want)
+        if want != bool(dl):
+            probs.append('stored=%s value-given=%s identical=%s: %s'
+                         % (stored is False, vn is False, ident,
+                            'deleted' if dl else 'kept'))
+    if kinds != {True, False}:
+        probs.append('outcomes seen %s' % sorted(kinds))
+    rep.check(rule, site, not probs,
+              'the leaf is deleted only if something is stored (is not None) and (no '
+              'value was given or the stored value IS the given one)'
+              if not probs else {'problems': sorted(set(probs))[:3]},
+              construct='value-filter', node=f)
 
 
 def prune(rep, rule, mod, fname):
-    """over path summaries: the descent is recorded once per level as
-    (container, key) in a fresh list; the prune walk runs over that list
-    backwards, deletes container[key] only when it is empty and never
-    continues past a non-empty one"""
+    """over path summaries, independent of how the descent was recorded: after
+    the leaf entry was deleted, a container entry X[k] is deleted only right
+    after X[k] was found empty, nothing more is deleted once a non-empty one was
+    met, and a recognised walk over the recorded descent runs leaf -> root"""
     from .declsem import alloc_site
-    from .specsem import polarity_text
     f = find_def(mod, 'BaseAdapterRegistry.' + fname)
     site = 'BaseAdapterRegistry.' + fname
     cfg = cfg_of(f)
     ss = normal(summaries(f))
+    STORE = 'self._adapters' if fname == 'unregister' else 'self._subscribers'
     probs = []
-    walks = 0
+    pruned = 0
     kinds = set()
     for ps in ss:
-        its = [(k, c) for k, (c, t, p) in enumerate(ps.order)
-               if t and c.startswith('ITER(')]
-        for k, c in its:
+        dels = [(i, e) for i, e in enumerate(ps.events) if e.kind == 'del'
+                and isinstance(e.r, ast.Subscript)]
+        # the leaf entry: del <leaf>[name] / del <leaf>['']
+        leaf = [i for i, e in dels if nt(e.r.slice) in ("''", 'name', '_normalize_name(name)')]
+        if not leaf:
+            continue
+        stopped = False
+        for c, t, p in ps.order:
+            pass
+        for i, e in dels:
+            if i <= leaf[0] or nt(e.r) == '%s[-1]' % STORE or \
+                    nt(e.r.value) == 'self._provided':
+                continue
+            slot = nt(e.r)
+            before = [(c, t) for c, t, p in ps.order if p <= i and c == slot]
+            pruned += 1
+            if not before or before[-1][1] is not False:
+                probs.append('a container is removed without testing that it is empty')
+            # nothing non-empty was met earlier in the prune phase
+            met = [c for c, t, p in ps.order if leaf[0] < p <= i and t is True
+                   and c.endswith(']') and not c.startswith(('ITER(', STORE))
+                   and ('EACH(' in c or '.pop()' in c) and '[' in c and c != slot
+                   and not c.startswith('len(')]
+            if met:
+                probs.append('the walk continues past a non-empty container')
+        for k, (c, t, p) in enumerate(ps.order):
+            if p > leaf[0] and t is True and ('EACH(' in c or '.pop()' in c) and \
+                    c.endswith(']') and not c.startswith(('ITER(', STORE, 'len(')):
+                kinds.add(True)
+                if ps.reenters_loop(cfg, k):
+                    probs.append('the walk continues past a non-empty container')
+            if p > leaf[0] and t is False and ('EACH(' in c or '.pop()' in c) and \
+                    c.endswith(']') and not c.startswith(('ITER(', STORE, 'len(')):
+                kinds.add(False)
+        # direction of a recognised walk
+        for k, (c, t, p) in enumerate(ps.order):
+            if not (t and c.startswith('ITER(') and p > leaf[0]):
+                continue
             src = ps.order_ast.get(k)
             if src is None:
                 continue
             base, d = iter_polarity(src)
-            s_ = alloc_site(base)
-            if s_ is None:
-                continue
-            E = 'EACH(%s)' % nt(src)
-            slot = '%s[0][%s[1]]' % (E, E)
             recs = [e for e in ps.events if e.kind == 'call' and
                     isinstance(e.r.func, ast.Attribute) and e.r.func.attr == 'append'
-                    and alloc_site(e.r.func.value) == s_]
-            if not recs:
-                continue
-            walks += 1
-            if d != 'rev':
+                    and alloc_site(e.r.func.value) is not None
+                    and alloc_site(e.r.func.value) == alloc_site(base)]
+            if recs and d != 'rev':
                 probs.append('the recorded descent is walked %s (required: leaf -> root)' % d)
-            for e in recs:
-                a = e.r.args[0] if e.r.args else None
-                if not (isinstance(a, ast.Tuple) and len(a.elts) == 2 and
-                        nt(a.elts[1]).startswith('EACH(') and
-                        'provided,)' in nt(a.elts[1])):
-                    probs.append('descent recorded as `%s`' % nt(a)[:60])
-            emp = [(j, t) for j, (cc, t, p) in enumerate(ps.order) if cc == slot and j > k]
-            dels = [e for e in ps.dels() if nt(e.r) == slot]
-            if not emp:
-                probs.append('a container is removed without testing that it is empty')
-                continue
-            j, t = emp[-1]
-            kinds.add(t)
-            if t:
-                if dels:
-                    probs.append('a non-empty container is removed')
-                if ps.reenters_loop(cfg, j):
-                    probs.append('the walk continues past a non-empty container')
-            elif len(dels) != 1:
-                probs.append('an emptied container is not removed')
-    if not walks:
-        probs.append('pruning walk over the recorded descent not found')
-    elif kinds != {True, False}:
-        probs.append('outcomes of the emptiness test seen: %s' % sorted(kinds))
+        for e in ps.events:
+            if e.kind == 'call' and isinstance(e.r.func, ast.Attribute) and \
+                    e.r.func.attr == 'pop' and e.r.args and nt(e.r.args[0]) == '0' and \
+                    alloc_site(e.r.func.value) is not None:
+                probs.append('the recorded descent is consumed root -> leaf')
+    if not pruned:
+        probs.append('emptied containers are never removed')
     rep.check(rule, site, not probs,
               'emptied containers are removed leaf -> root, each only if empty, '
-              'stopping at the first non-empty one (%d walk paths)' % walks
+              'stopping at the first non-empty one (%d removals on the paths)' % pruned
               if not probs else {'problems': sorted(set(probs))[:3]},
               construct='prune', node=f)
     STORE = 'self._adapters' if fname == 'unregister' else 'self._subscribers'
